@@ -340,6 +340,8 @@ class Algebra:
                     raise Unsupported("signed bv floordiv")
                 self.side.append(("div-nonzero", b != 0))
                 return z3.UDiv(a, b)
+            if op == "pow" and z3.is_bv_value(z3.simplify(a)) and z3.simplify(a).as_long() == 2:
+                return z3.BitVecVal(1, bits) << b      # 2 ** e (wraps like the dtype for e >= bits)
             raise Unsupported(f"bv op {op}")
         if op == "add":
             return self.wrap(a + b, d)
